@@ -22,6 +22,9 @@ Mechanism: `validForData`, `aligned` (lengths, trimming, stretching, transpositi
 `subpixelOffset` (effective offsets, overlap, zero canvas, block placement), `krisskross`,
 `getLayer`, `getFlat`, `srrGet`, `SrrConfig.make / apply (setters) / toArray / fromArray / toRec / fromRec`.
 Specification: `voxel`, the closed geometric formula of one output voxel; `validSpec`; `layerSpec`.
+The object between two reconstructions: `Stack` (fields `(name, dtype)` + layers of pixel tuples), `StackOp`
+(`SRRLaser.rename / remove / add`, `laser.data` assigned / appended / popped / written into), `Stack.apply`.
+The model has no state besides the stack and the configuration: a reconstruction is a function of the two.
 -/
 namespace Pew
 
@@ -500,6 +503,108 @@ def layerSpec {α : Type} (l : Arr2 α) (i : Nat) : Arr2 α :=
 def flatSpec (l0 l1 mag p w : Nat) (offs : List Nat) (layers : List (Arr2 Rat)) (r cc : Nat) : Rat :=
   ((List.range layers.length).map (fun i => voxel 0 l0 l1 mag p w offs layers r cc i)).sum
     / (layers.length : Rat)
+
+/-! ## the stack an `SRRLaser` object holds, and what changes it between two reconstructions
+
+`laser.data` is a public list of structured arrays.  Its element set is changed by the methods `rename`, `remove`,
+`add` of `SRRLaser` (each rebuilds every layer with a new structured dtype), by assigning other layers
+(`laser.data = [...]`, `laser.data[i] = ...`, `laser.data.append(...)`, `laser.data.pop()`) and by writing into a layer.
+A pixel of the model is the tuple of its field values in dtype order; a field is `(name, dtype string)`. -/
+
+/-- `np.ndarray.map`: the same shape, every cell through `f` (a pixelwise change of the structured dtype) -/
+def _root_.Pew.Arr2.map {α β : Type} (f : α → β) (a : Arr2 α) : Arr2 β :=
+  { rows := a.rows, cols := a.cols, get := fun r c => f (a.get r c) }
+
+def _root_.Pew.Arr3.map {α β : Type} (f : α → β) (a : Arr3 α) : Arr3 β :=
+  { rows := a.rows, cols := a.cols, depth := a.depth, get := fun r c i => f (a.get r c i) }
+
+structure Stack where
+  fields : List (String × String)
+  layers : List (Arr2 (List Int))
+
+def Stack.names (s : Stack) : List String := s.fields.map (·.1)
+
+def distinct : List String → Bool
+  | [] => true
+  | a :: l => !l.contains a && distinct l
+
+/-- `names.get(name, name)` -/
+def renameName (m : List (String × String)) (n : String) : String := (m.lookup n).getD n
+
+/-- the fields `drop_fields` keeps, as positions in the old dtype -/
+def keepIdx (fields : List (String × String)) (names : List String) : List Nat :=
+  (List.range fields.length).filter (fun i => match fields[i]? with
+    | some f => !names.contains f.1
+    | none => false)
+
+/-- a pixel restricted to the positions `keep` -/
+def pickIdx (keep : List Nat) (px : List Int) : List Int := keep.map (fun i => px.getD i 0)
+
+/-- a pixel of `n` fields with one more value appended (`new_data[name] = old[name]` for the old names, then the new one) -/
+def appendField (n : Nat) (px : List Int) (v : Int) : List Int := (List.range n).map (fun k => px.getD k 0) ++ [v]
+
+inductive StackOp
+  /-- `SRRLaser.rename(names)`: `rfn.rename_fields(layer, names)` on every layer -/
+  | rename (m : List (String × String))
+  /-- `SRRLaser.remove(names)`: `rfn.drop_fields(layer, names, usemask=False)` on every layer -/
+  | remove (names : List String)
+  /-- `SRRLaser.add(element, data)`: a new dtype `descr + [(element, data[i].dtype.str)]`, old fields copied -/
+  | add (name dtype : String) (data : List (Arr2 Int))
+  /-- `laser.data = [...]` (or every item assigned): another stack altogether -/
+  | setData (s : Stack)
+  /-- `laser.data.append(layer)` -/
+  | append (layer : Arr2 (List Int))
+  /-- `laser.data.pop()` -/
+  | pop
+  /-- `delta` added to every field of the cells `cells` of layer `i` (in place, or as a new array assigned to
+  `laser.data[i]`) -/
+  | addTo (i : Nat) (cells : List (Nat × Nat)) (delta : Int)
+
+/-- the stack after one change.  `none`: outside the model - pewlib raises (a name that is already there / not there,
+a duplicate after renaming, data of another shape or another number of layers) or would leave layers without a field. -/
+def Stack.apply (s : Stack) : StackOp → Option Stack
+  | .rename m =>
+    let fs := s.fields.map (fun f => (renameName m f.1, f.2))
+    if distinct (fs.map (·.1)) then some { s with fields := fs } else none
+  | .remove names =>
+    let keep := keepIdx s.fields names
+    if distinct names && names.all (fun n => s.names.contains n) && !keep.isEmpty then
+      some { fields := keep.filterMap (fun i => s.fields[i]?), layers := s.layers.map (Arr2.map (pickIdx keep)) }
+    else none
+  | .add name dt data =>
+    if s.names.contains name || data.length != s.layers.length ||
+        !(List.zip s.layers data).all (fun (l, d) => l.rows == d.rows && l.cols == d.cols) then none
+    else
+      some { fields := s.fields ++ [(name, dt)],
+             layers := List.zipWith (fun (l : Arr2 (List Int)) (d : Arr2 Int) =>
+               ({ rows := l.rows, cols := l.cols,
+                  get := fun r c => appendField s.fields.length (l.get r c) (d.get r c) } : Arr2 (List Int)))
+               s.layers data }
+  | .setData s' => some s'
+  | .append l => some { s with layers := s.layers ++ [l] }
+  | .pop => if s.layers.isEmpty then none else some { s with layers := s.layers.dropLast }
+  | .addTo i cells delta =>
+    match s.layers[i]? with
+    | some l =>
+      if cells.all (fun rc => decide (rc.1 < l.rows) && decide (rc.2 < l.cols)) then
+        let l' : Arr2 (List Int) :=
+          { l with get := fun r c => if cells.contains (r, c) then (l.get r c).map (· + delta) else l.get r c }
+        some { s with layers := s.layers.set i l' }
+      else none
+    | none => none
+
+/-- a history of changes, one after the other -/
+def Stack.applyAll (s : Stack) : List StackOp → Option Stack
+  | [] => some s
+  | op :: ops => match s.apply op with
+    | some s' => s'.applyAll ops
+    | none => none
+
+/-- the zero record of a structured dtype with `n` fields (`np.zeros`) -/
+def zeroPx (n : Nat) : List Int := List.replicate n 0
+
+/-- field `e` of a structured array: `array[name]` for the `e`-th name -/
+def fieldOf (e : Nat) (px : List Int) : Int := px.getD e 0
 
 end Srr
 end Pew
